@@ -3,6 +3,8 @@ package cmd
 import (
 	"fmt"
 	"io"
+	"os"
+	"path/filepath"
 	"reflect"
 	"runtime"
 	"strings"
@@ -141,5 +143,47 @@ func TestGovcConformance(t *testing.T) {
 			}
 		}
 	}
-	fmt.Printf("GOVC-CONF name=composition-root kind=composition_invariants cases=%d bound=\"all 4 combinations of the two ignore flags (complete enumeration)\"\n", cases)
+	// the payload reaches the collaborators it is meant for (sentinel values, looked up in the object graph)
+	{
+		cases++
+		r := buildRunner(runnerPayload{writer: io.Discard, version: "9.8.7", buildInfo: "BI-SENT", paramsExistActive: true, servicesExistActive: true,
+			inputPatterns: []string{"PAT-SENT-1", "PAT-SENT-2"}, outputFile: "OUT-SENT.go", stub: true})
+		steps := govcField(reflect.ValueOf(r).Elem(), "steps")
+		rc := govcDeref(govcField(govcDeref(steps.Index(1)), "parent"))
+		pats := govcField(rc, "patterns")
+		if pats.Len() != 2 || pats.Index(0).String() != "PAT-SENT-1" || pats.Index(1).String() != "PAT-SENT-2" {
+			t.Errorf("GOVC-CONF composition: StepReadConfig.patterns = %v, want the input patterns in flag order", pats)
+		}
+		cg := govcDeref(govcField(govcDeref(steps.Index(4)), "parent"))
+		if got := govcField(cg, "outputFile").String(); got != "OUT-SENT.go" {
+			t.Errorf("GOVC-CONF composition: StepCodeGenerator.outputFile = %q", got)
+		}
+		b := govcDeref(govcField(cg, "builder"))
+		if got := govcField(b, "buildInfo").String(); got != "BI-SENT" {
+			t.Errorf("GOVC-CONF composition: template.Builder.buildInfo = %q", got)
+		}
+		if !govcField(b, "stub").Bool() {
+			t.Errorf("GOVC-CONF composition: template.Builder.stub is false for stub=true")
+		}
+	}
+	// C18: the version gate is fed the build's version (not the build info): the version validator sits behind a
+	// method value, so it is evaluated by running the real runner on a two-line configuration
+	for _, vc := range []struct {
+		cfgVersion string
+		accept     bool
+	}{{"1.2.0", true}, {"1.2.9", true}, {"2.0.0", false}, {"1.3.0", false}} {
+		cases++
+		dir := t.TempDir()
+		cfg := filepath.Join(dir, "cfg.yaml")
+		if err := os.WriteFile(cfg, []byte("version: "+vc.cfgVersion+"\nparameters:\n  a: 1\n"), 0o644); err != nil {
+			t.Fatal(err)
+		}
+		r := buildRunner(runnerPayload{writer: io.Discard, version: "1.2.3", buildInfo: "1.2.3 deadbeef-clean (build date 2026-01-01)", paramsExistActive: true,
+			servicesExistActive: true, inputPatterns: []string{cfg}, outputFile: filepath.Join(dir, "out.go"), stub: false})
+		err := r.Run()
+		if (err == nil) != vc.accept {
+			t.Errorf("GOVC-CONF composition: build 1.2.3, configuration version %s: accepted=%v, want %v (err: %v)", vc.cfgVersion, err == nil, vc.accept, err)
+		}
+	}
+	fmt.Printf("GOVC-CONF name=composition-root kind=composition_invariants cases=%d bound=\"all 4 combinations of the two ignore flags (complete enumeration), one sentinel payload, four configuration versions against build 1.2.3\"\n", cases)
 }
